@@ -77,6 +77,15 @@ func c22Gen(rng *core.Rng, tier string) *harness.Plan {
 		dur = time.Duration(40+rng.IntN(80)) * time.Second
 	}
 	p.Params["dur_ms"] = int64(dur / time.Millisecond)
+	if rng.Chance(0.4) {
+		// stops during start-up: the first start (genesis load) of one node and/or the restarts after stops
+		if rng.Chance(0.5) {
+			p.Params["nodes"] = int64(8 + rng.IntN(2))
+			p.Params["bootstop_k"] = int64(1 + rng.IntN(3))
+			p.Params["bootstop_node"] = int64(rng.IntN(9))
+		}
+		p.Params["startcut_ppm"] = int64(rng.IntN(700000))
+	}
 	honestWorkload(rng, p, 2*time.Second, dur, 6+rng.IntN(10), 3+rng.IntN(8))
 	crashes := 2 + rng.IntN(5)
 	for i := 0; i < crashes; i++ {
